@@ -386,6 +386,41 @@ fn sweep(run: &Run) {
     if ok {
         run.exhaustive(format!("all {} logger names over {{a,b,:}} of length <= 7, each as the only logger", names.len()));
     }
+    // longer names (8-72 characters, multi-byte ones too): one colon run of length 1, 2 or 3 at every position, and two
+    // runs a word apart - a name check that looks at the name in blocks must not lose a run at a block boundary
+    let mut long = 0usize;
+    for len in [8usize, 9, 15, 16, 17, 23, 24, 25, 31, 32, 33, 40, 47, 48, 63, 64, 65, 72] {
+        for pos in 0..len {
+            for run_len in 1..=3usize {
+                if pos + run_len > len {
+                    continue;
+                }
+                for filler in ['a', '\u{e9}'] {
+                    let mut n: String = std::iter::repeat(filler).take(pos).collect();
+                    n.extend(std::iter::repeat(':').take(run_len));
+                    n.extend(std::iter::repeat('b').take(len - pos - run_len));
+                    let mut variants = vec![n.clone()];
+                    if pos + run_len + 9 < len {
+                        // a second run eight characters further on
+                        let cs: Vec<char> = n.chars().collect();
+                        let mut m: Vec<char> = cs.clone();
+                        m[pos + run_len + 7] = ':';
+                        variants.push(m.iter().collect());
+                        m[pos + run_len + 8] = ':';
+                        variants.push(m.iter().collect());
+                    }
+                    for name in variants {
+                        let case = Case { appenders: vec!["A0".into()], root_level: 2, root_refs: vec!["A0".into()], loggers: vec![RawLogger { name: name.clone(), level: 4, additive: true, refs: vec!["A0".into()] }], targets: vec![name.clone(), "a".into()] };
+                        ok &= run.eval_one("names-exhaustive", &case, &check);
+                        long += 1;
+                    }
+                }
+            }
+        }
+    }
+    if ok {
+        run.exhaustive(format!("{} names of 8-72 characters with a colon run of length 1-3 at every position (and a second run eight characters on)", long));
+    }
 }
 
 pub fn run(run: &Run) {
